@@ -172,6 +172,12 @@ def do_link(src, trg):
         return True
     except FileExistsError:
         pass
+    except FileNotFoundError:
+        # same treatment copyfile(mkdirs=True) gives a missing parent directory
+        if not ensure_dirs(os.path.dirname(trg.location), mode=0o750, minimal=True):
+            raise
+        os.link(src.location, trg.location)
+        return True
     except OSError as e:
         if e.errno == errno.EXDEV:
             # hardlink is impossible, force copyfile
